@@ -10,6 +10,7 @@ from ..components import InplaceLog, Moved
 from ..entries import derive_scratch
 from ..index import AnalysisError, FuncInfo
 from ..interp import Interp
+from ..model import ATTR
 from ..report import Result
 from ..values import ANY, D0, TOP, Val, dim_collapse, vconst
 
@@ -221,6 +222,16 @@ def _repr(res, index):
                 bad = True
                 res.bad("REPR-2", label + ":" + kw, where, f"{label}: `{kw}=` formats a {v.kind} value that is not literal-safe for eval "
                         f"(lists of ndarrays print as array(...)); use .tolist()")
+        # REPR-3 an optional parameter the constructor stores is state: omitting it makes eval(repr) re-derive it from the default
+        stored_any = _ctor_storage(index, pc, assume_defaults=False)
+        optional = pnames[len(pnames) - len(a.defaults):]
+        for p_ in optional:
+            # geometric state only (arrays / lengths of the attribute model); flags such as faces_are_convex are hints
+            attrs = {a_ for a_ in stored_any.get(p_, set()) if ATTR.get(a_, (None, None))[1] in ("arr", "float")}
+            if attrs and p_ not in kws:
+                bad = True
+                res.bad("REPR-3", f"{label}:omits:{p_}", where, f"{label} does not print `{p_}=` although {printed}() stores it in {sorted(attrs)}: "
+                        f"eval(repr(shape)) rebuilds the shape with the default {p_} (e.g. the opposite normal for clockwise vertices)")
         if not bad:
             res.ok("REPR-1", label, sample={"class": cls.name, "prints": printed, "keywords": kws})
 
@@ -244,9 +255,9 @@ def _fstring_parts(node):
     return None
 
 
-def _ctor_storage(index, cls):
+def _ctor_storage(index, cls, assume_defaults=True):
     init = cls.lookup("__init__")
-    it = Interp(index, config={"assume_defaults": True})
+    it = Interp(index, config={"assume_defaults": assume_defaults})
     r = it.run_entry(init, cls)
     stored = {}
     for e in r["events"]:
@@ -362,6 +373,16 @@ def _hoomd(res, index, scratch):
                         f"afterwards (at {hit[1]}): the exported array is un-centered again by the restore")
             else:
                 res.ok("HOOMD-2", label)
+        # HOOMD-4 one frame: the exported vertices are the shape's own coordinates (a slice / copy), not a transformed set
+        v = r["result"]
+        if v is not None and v.mapping is not None and "vertices" in v.mapping:
+            vv = v.mapping["vertices"]
+            other = sorted({a_ for (o, a_) in vv.deps if o != "call" and a_ != "_vertices"})
+            if other:
+                res.bad("HOOMD-4", f"{label}:vertices:{','.join(other)}", where, f"{label} exports vertices computed from {other} as well: they are expressed in another "
+                        "frame than the inertia tensor and centroid of the same dict (e.g. mirrored for a clockwise polygon)")
+            else:
+                res.ok("HOOMD-4", label, nontrivial=False)
         # HOOMD-3 keys vs docstring
         v = r["result"]
         doc = _doc_keys(fn)
